@@ -409,7 +409,7 @@ class MiniInterp:
         if isinstance(st, ast.For):
             src = self.ev(st.iter, env, fi)
             # iterators are pulled one element at a time: a loop that is left early leaves the rest in the iterator
-            it = src.lazy() if isinstance(src, LazyIter) else src.pull() if isinstance(src, _Iter) else _live_list(src) if type(src) is list else self.iterate(src)
+            it = self.loop_source(src)
             broke = False
             try:
                 for x in it:
@@ -1378,7 +1378,7 @@ class MiniInterp:
             src = self.ev(g.iter, env2, fi)
             # a lazily produced source (os.walk, a generator function) is pulled one element at a time: what the inner clauses do
             # with an element (pruning the walked directory list) happens before the next one is produced
-            for x in (src.lazy() if isinstance(src, LazyIter) else src.pull() if isinstance(src, _Iter) else _live_list(src) if type(src) is list else self.iterate(src)):
+            for x in (self.loop_source(src)):
                 self.tick()
                 self.assign(g.target, x, env2, fi)
                 if all(self.truth(self.ev(c, env2, fi)) for c in g.ifs):
@@ -1391,6 +1391,24 @@ class MiniInterp:
         if isinstance(n, ast.DictComp):
             return dict(out)
         return _Iter(out)
+
+    def loop_source(self, src, depth=0):
+        """what a for loop (or a comprehension clause) draws from: iterators and generators one element at a time, lists by
+        position in the live list, objects of the project through their __iter__ (whose result is drawn from in the same way)"""
+        if isinstance(src, LazyIter):
+            return src.lazy()
+        if isinstance(src, _Iter):
+            return src.pull()
+        if type(src) is list:
+            return _live_list(src)
+        if isinstance(src, Sym) and src.cls is not None and not getattr(src, "tuple_order", None) and depth < 3:
+            m = src.cls.find_method("__iter__")
+            if m is not None:
+                r = self.call(self.prj.func(m.qual, raw=True), [], {}, src)
+                if r is src:
+                    return iter(self.iterate(src))
+                return self.loop_source(r, depth + 1)
+        return iter(self.iterate(src))
 
     def genexp(self, n, env, fi):
         """a generator expression: the outermost iterable is evaluated now, everything else when the consumer asks for the next
@@ -1405,7 +1423,7 @@ class MiniInterp:
                     return
                 g = n.generators[i]
                 src = first if i == 0 else self.ev(g.iter, env2, fi)
-                for x in (src.lazy() if isinstance(src, LazyIter) else src.pull() if isinstance(src, _Iter) else _live_list(src) if type(src) is list else self.iterate(src)):
+                for x in (self.loop_source(src)):
                     self.tick()
                     self.assign(g.target, x, env2, fi)
                     if all(self.truth(self.ev(c, env2, fi)) for c in g.ifs):
@@ -2750,9 +2768,15 @@ class MiniInterp:
         if isinstance(f, Closure):
             if isinstance(f.node, ast.Lambda):
                 e2 = dict(f.env)
-                ps = [x.arg for x in f.node.args.args]
+                ps = [x.arg for x in f.node.args.posonlyargs + f.node.args.args]
                 for p, a in zip(ps, args):
                     e2[p] = a
+                if f.node.args.vararg is not None:
+                    e2[f.node.args.vararg.arg] = tuple(args[len(ps):])
+                elif len(args) > len(ps):
+                    raise PyRaise("TypeError", f.node)
+                if f.node.args.kwarg is not None or f.node.args.kwonlyargs:
+                    raise Unknown("lambda with keyword-only or ** parameters")
                 for i, d in enumerate(reversed(f.node.args.defaults)):
                     pn = ps[len(ps) - 1 - i]
                     if pn not in e2 or len(args) <= ps.index(pn):
@@ -2775,12 +2799,25 @@ class MiniInterp:
                 if d is not None:
                     defaults[x.arg] = d
             bound = set()
-            for p, a in zip(ps, args):
+            npos = len(aa.posonlyargs + aa.args)
+            for p, a in zip(ps[:npos], args):
                 e2[p] = a
                 bound.add(p)
+            if aa.vararg is not None:
+                e2[aa.vararg.arg] = tuple(args[npos:])
+            elif len(args) > npos:
+                raise PyRaise("TypeError", f.node)
+            extra_kw = {}
             for k, v in kwargs.items():
-                e2[k] = v
-                bound.add(k)
+                if k in ps:
+                    e2[k] = v
+                    bound.add(k)
+                elif aa.kwarg is not None:
+                    extra_kw[k] = v
+                else:
+                    raise PyRaise("TypeError", f.node)
+            if aa.kwarg is not None:
+                e2[aa.kwarg.arg] = extra_kw
             for p in ps:
                 if p not in bound:
                     if p in defaults:
